@@ -156,7 +156,10 @@ func (ms *modelSession) evalStr(t *Term) (string, error) {
 	if err != nil {
 		return "", err
 	}
-	if n < 0 || n > 4096 {
+	if n < 0 {
+		n = 0 // a string the code never looks at: any value will do
+	}
+	if n > 4096 {
 		return "", fmt.Errorf("string length %d out of replay range", n)
 	}
 	b := make([]byte, n)
@@ -214,7 +217,10 @@ func (ex *Exec) goLiteral(ms *modelSession, v Val, ty types.Type, depth int) (st
 		if base == 0 && n == 0 {
 			return "nil", nil
 		}
-		if n < 0 || n > 64 {
+		if n < 0 {
+			n = 0
+		}
+		if n > 64 {
 			return "", fmt.Errorf("slice length %d out of replay range", n)
 		}
 		es := sortOf(u.Elem())
@@ -285,8 +291,19 @@ func qualifierFor(pkg *types.Package) types.Qualifier {
 }
 
 // sizeBounds: constraints keeping the inputs small enough to print.
-func (ex *Exec) sizeBounds() []*Term {
+func (ex *Exec) sizeBounds(n int64, ascii bool) []*Term {
 	var out []*Term
+	hi := int64(255)
+	if ascii {
+		hi = 126
+	}
+	strBound := func(s *Term, lim int64) {
+		out = append(out, Le(SLen(s), IntLit(lim)), Ge(SLen(s), IntLit(0)))
+		for i := int64(0); i < lim; i++ {
+			b := SAt(s, IntLit(i))
+			out = append(out, And(Le(IntLit(0), b), Le(b, IntLit(hi))))
+		}
+	}
 	var walk func(v Val, ty types.Type, depth int)
 	walk = func(v Val, ty types.Type, depth int) {
 		if v.T == nil || depth > 2 {
@@ -294,13 +311,13 @@ func (ex *Exec) sizeBounds() []*Term {
 		}
 		switch v.T.S {
 		case SStr:
-			out = append(out, Le(SLen(v.T), IntLit(24)))
+			strBound(v.T, n)
 		case SSlice:
-			out = append(out, Le(SlLen(v.T), IntLit(5)))
+			out = append(out, Le(SlLen(v.T), IntLit(4)), Le(SlOff(v.T), IntLit(2)))
 			if sl, ok := ty.Underlying().(*types.Slice); ok && sortOf(sl.Elem()) == SStr {
 				h := ex.getHeap(ex.init, heapArrName(SStr), ArrS(SInt, ArrS(SInt, SStr)))
-				for i := int64(0); i < 5; i++ {
-					out = append(out, Le(SLen(Select(Select(h, SlBase(v.T)), Add(SlOff(v.T), IntLit(i)))), IntLit(12)))
+				for i := int64(0); i < 4; i++ {
+					strBound(Select(Select(h, SlBase(v.T)), Add(SlOff(v.T), IntLit(i))), n)
 				}
 			}
 		case SInt:
@@ -326,13 +343,13 @@ func (ex *Exec) sizeBounds() []*Term {
 // tryReplay attempts to confirm a refuted obligation on the real code.
 // Returns the replay file path and whether the violation was reproduced.
 func tryReplay(V *Verifier, verif, repo, prop string, r *oblResult) (string, bool) {
-	dir := filepath.Join(verif, "replays", prop)
+	dir := filepath.Join(outRoot, "replays", prop)
 	os.MkdirAll(dir, 0o755)
 	base := filepath.Join(dir, sanitize(r.O.Name))
 	note := ""
 	confirmed := false
 	goFile := ""
-	if r.Status == "failed" && r.Query != "" {
+	if (r.Status == "failed" || r.Status == "unknown") && r.SG != nil {
 		src, testName, err := r.O.ex.buildReplayTest(r)
 		if err != nil {
 			note = "replay not generated: " + err.Error()
@@ -387,26 +404,22 @@ func runReplay(repo, pkgName, goFile, testName, kind string) (string, bool) {
 // buildReplayTest produces the Go source of an in-package test that calls
 // the real function on the inputs of a (size-bounded) counterexample.
 func (ex *Exec) buildReplayTest(r *oblResult) (string, string, error) {
-	// re-solve with size bounds
-	q := r.Query
-	var sb strings.Builder
-	i := strings.LastIndex(q, "(check-sat)")
-	if i < 0 {
-		return "", "", fmt.Errorf("no check-sat in query")
-	}
-	sb.WriteString(q[:i])
-	for _, b := range ex.sizeBounds() {
-		sb.WriteString("(assert " + b.String() + ")\n")
-	}
-	sb.WriteString("(check-sat)\n")
-	// declarations for heap init constants used by the extraction may be missing
-	ms, status, err := startModel(ex.withExtraDecls(sb.String()), 20)
+	// bounded, quantifier-free candidate search (see ground.go)
+	const bound = 8
+	ms, status, err := startModel(ex.candidateQuery(r.O, *r.SG, bound, true), 30)
 	if err != nil {
 		return "", "", err
 	}
+	if status != "sat" {
+		ms.close()
+		ms, status, err = startModel(ex.candidateQuery(r.O, *r.SG, bound, false), 30)
+		if err != nil {
+			return "", "", err
+		}
+	}
 	defer ms.close()
 	if status != "sat" {
-		return "", "", fmt.Errorf("no small counterexample (%s with inputs bounded to short strings)", status)
+		return "", "", fmt.Errorf("no candidate counterexample with inputs bounded to %d bytes (%s)", bound, status)
 	}
 	fn := ex.fn
 	var args []string
